@@ -185,6 +185,7 @@ func (p *FProbe) Observable() ro.Observable[int] {
 // ---------- building the operator with wrapped callbacks ----------
 
 var faultNameSeq int
+var faultHangs int
 
 // withWrapped registers wrapped copies of the named callback under a fresh name in the callback
 // library and returns the Cb to hand to the ordinary builder of ops.go.
@@ -449,10 +450,17 @@ func runFaultCase(c *Case) string {
 		}
 	}()
 	usable := 1
+	// a case takes microseconds; 3 s without an answer means a goroutine is stuck on a lock. Once
+	// several cases of this run have hung (the run is failing anyway) the wait is shortened.
+	wait := 3 * time.Second
+	if faultHangs >= 8 {
+		wait = 300 * time.Millisecond
+	}
 	select {
 	case <-done:
-	case <-time.After(3 * time.Second):
+	case <-time.After(wait):
 		usable = 0
+		faultHangs++
 		mid = snapshot()
 	}
 	fin := snapshot()
@@ -547,6 +555,9 @@ func runGoChildCase(c *Case) string {
 		if strings.HasPrefix(line, "unh=") {
 			return "res " + c.id + " crash=0 " + line
 		}
+		if strings.HasPrefix(line, "hang=") {
+			return "res " + c.id + " crash=0 " + line
+		}
 	}
 	return "res " + c.id + " harness-child-failed"
 }
@@ -569,12 +580,48 @@ func faultChild(args []string) {
 	case "Future":
 		// the factory runs on a goroutine started with a bare `go func` (operator_creation.go:456)
 		ro.Future(func() (int, error) { fp.fire("cb"); return 1, nil }).Subscribe(obs)
+	case "Start":
+		ro.Start(func() int { fp.fire("cb"); return 1 }).Subscribe(obs)
+	case "Defer":
+		ro.Defer(func() ro.Observable[int] { fp.fire("cb"); return ro.Just(1) }).Subscribe(obs)
 	case "FromChannel":
 		// the goroutine of FromChannel delivers the completion; the subscriber's teardown
 		// (TapOnFinalize's callback) panics on that goroutine
 		ch := make(chan int)
 		ro.TapOnFinalize[int](func() { fp.fire("cb") })(ro.FromChannel(ch)).Subscribe(obs)
 		close(ch)
+	case "RawObserver:safe", "RawObserver:unsafe":
+		// the destination is a hand-written Observer (not ro.NewObserver): its NextWithContext panics
+		// inside subscriberImpl.NextWithContext, between mu.Lock() and mu.Unlock() (subscriber.go:176-199)
+		raw := &rawObserver{fp: fp}
+		body := func(dest ro.Observer[int]) ro.Teardown { dest.Next(1); dest.Next(2); return nil }
+		var o ro.Observable[int]
+		if strings.HasSuffix(name, ":safe") {
+			o = ro.NewSafeObservable(body)
+		} else {
+			o = ro.NewUnsafeObservable(body)
+		}
+		done := make(chan string, 1)
+		go func() {
+			defer func() {
+				if r := recover(); r != nil {
+					done <- "escaped"
+				}
+			}()
+			o.Subscribe(raw)
+			done <- "returned"
+		}()
+		select {
+		case how := <-done:
+			raw.mu.Lock()
+			fmt.Println("hang=0 how=" + how + " seen=" + joinOrDash(raw.seen))
+			raw.mu.Unlock()
+		case <-time.After(2 * time.Second):
+			raw.mu.Lock()
+			fmt.Println("hang=1 how=- seen=" + joinOrDash(raw.seen))
+			raw.mu.Unlock()
+		}
+		return
 	default:
 		fmt.Println("unsupported")
 		os.Exit(3)
@@ -589,6 +636,33 @@ func faultChild(args []string) {
 	fmt.Println("unh=" + joinOrDash(unh))
 	mu.Unlock()
 }
+
+// rawObserver implements ro.Observer[int] by hand; its Next panics as planned (position "fn")
+type rawObserver struct {
+	mu   sync.Mutex
+	fp   *faultPlan
+	seen []string
+}
+
+func (o *rawObserver) rec(s string) {
+	o.mu.Lock()
+	o.seen = append(o.seen, s)
+	o.mu.Unlock()
+}
+func (o *rawObserver) Next(v int) { o.NextWithContext(context.Background(), v) }
+func (o *rawObserver) NextWithContext(ctx context.Context, v int) {
+	o.rec("N" + strconv.Itoa(v))
+	o.fp.fire("fn")
+}
+func (o *rawObserver) Error(err error) { o.ErrorWithContext(context.Background(), err) }
+func (o *rawObserver) ErrorWithContext(ctx context.Context, err error) {
+	o.rec("E" + renderErr(err))
+}
+func (o *rawObserver) Complete()                               { o.rec("C") }
+func (o *rawObserver) CompleteWithContext(ctx context.Context) { o.rec("C") }
+func (o *rawObserver) IsClosed() bool                          { return false }
+func (o *rawObserver) HasThrown() bool                         { return false }
+func (o *rawObserver) IsCompleted() bool                       { return false }
 
 // ---------- generation ----------
 
